@@ -7,6 +7,7 @@ pub mod minerlife;
 pub mod penalties;
 pub mod util;
 
+pub mod c01;
 pub mod c02;
 pub mod c03;
 pub mod c04;
